@@ -32,7 +32,7 @@ import pipedoc
 import pipetrace
 import pool
 
-JOBS = min(common.NCPU, 5)
+JOBS = min(common.NCPU, 4)
 M256 = "f" * 64
 
 OPTSETS = {
@@ -165,26 +165,20 @@ def fault_cfg(nb):
 
 
 def enumerate_faults(nbs):
-    """PipelineFaults for every contract size -> {nb: [fault]}, TLC statistics"""
-    out, st = {}, [0, 0]
-
-    def one(nb):
-        r = common.run_tlc("PipelineFaults", fault_cfg(nb), {}, workers=1, timeout=600, tag="faults%d" % nb)
-        if not r.ok:
-            raise common.MachineryError("PipelineFaults failed:\n" + r.out[-2000:])
-        fs, seen = [], set()
-        for t in r.tagged("F"):
-            k = (t[1], t[2], t[3])
-            if k not in seen:
-                seen.add(k)
-                fs.append({"b": t[1], "stage": t[2], "sticky": bool(t[3])})
-        return nb, fs, r
-    with cf.ThreadPoolExecutor(max_workers=JOBS) as ex:
-        for nb, fs, r in ex.map(one, sorted(set(nbs))):
-            out[nb] = fs
-            st[0] += r.distinct
-            st[1] += r.generated
-    return out, st
+    """PipelineFaults for the largest contract; a contract of nb blocks gets the faults with b <= nb -> {nb: [fault]}"""
+    top = max(nbs)
+    r = common.run_tlc("PipelineFaults", fault_cfg(top), {}, workers=1, timeout=600, tag="faults%d" % top)
+    if not r.ok:
+        raise common.MachineryError("PipelineFaults failed:\n" + r.out[-2000:])
+    fs, seen = [], set()
+    for t in r.tagged("F"):
+        k = (t[1], t[2], t[3])
+        if k not in seen:
+            seen.add(k)
+            fs.append({"b": t[1], "stage": t[2], "sticky": bool(t[3])})
+    if len(fs) != 5 * top + 1:
+        raise common.MachineryError("PipelineFaults: %d faults for %d blocks" % (len(fs), top))
+    return {nb: [f for f in fs if f["b"] <= nb] for nb in set(nbs)}, [r.distinct, r.generated]
 
 
 # --------------------------------------------------------------------------------------------
@@ -316,7 +310,7 @@ def judge_budget(cases):
     verdicts = {}
     if not cases:
         return verdicts, st
-    shards = common.shard(cases, 2)
+    shards = common.shard(cases, 1 if len(cases) < 20000 else 2)
     envs = []
     for i, sh in enumerate(shards):
         p = os.path.join(common.workdir(), "budget_cases_%d.json" % i)
@@ -342,7 +336,12 @@ def shrink(example, clause, cls, rounds):
         toks = gen.tokens(cur)
         if len(toks) <= 1:
             break
-        cands = [" ".join(toks[:i] + toks[i + 1:]) for i in range(len(toks))]
+        cands, n = [], len(toks)
+        for size in sorted({max(1, n // 2), max(1, n // 4), 1}, reverse=True):      # ddmin-style: big chunks first
+            for start in range(0, n, size):
+                t = " ".join(toks[:start] + toks[start + size:])
+                if t and t not in cands:
+                    cands.append(t)
         rr = pool.run_commands(example["options"], [{"cmd": "opt", "text": t} for t in cands], nworkers=JOBS, timeout=10 + 0.5 * len(toks) + 5)
         cases = []
         for i, (t, r) in enumerate(zip(cands, rr)):
@@ -350,7 +349,7 @@ def shrink(example, clause, cls, rounds):
             for b in r.get("blocks", []):
                 if "exc" in b and not stage:
                     stage, exc = b["stage"], b["exc"]["type"] + ": " + b["exc"]["msg"]
-            cases.append({"id": i + 1, "n": len(toks) - 1, "wall_ms": int(1000 * r.get("wall", 0)), "rss_kb": int(r.get("maxrss_kb", 0)),
+            cases.append({"id": i + 1, "n": len(gen.tokens(t)), "wall_ms": int(1000 * r.get("wall", 0)), "rss_kb": int(r.get("maxrss_kb", 0)),
                           "killed": bool(r.get("killed")), "stage": stage if "worker_exc" not in r else "", "exc": exc[:200]})
         v, bst = judge_budget(cases)
         st[0] += bst["states"]
@@ -358,7 +357,7 @@ def shrink(example, clause, cls, rounds):
         keep = [c for c in cases if c["id"] in v and v[c["id"]][1] == clause and (not c["stage"] or exc_class(c["exc"]) == cls)]
         if not keep:
             break
-        cur = cands[keep[0]["id"] - 1]
+        cur = min((cands[c["id"] - 1] for c in keep), key=lambda t: len(gen.tokens(t)))
     return cur, st
 
 
@@ -480,10 +479,10 @@ def run(tier):
     shrunk = [0, 0]
     for g in groups.values():
         g["examples"] = sorted(g["examples"], key=lambda e: (e["n"], len(e["block"])))[:5]
-    for g in sorted(groups.values(), key=lambda g: -g["examples"][0]["n"])[:2 if tier == "quick" else 6]:
+    for g in sorted(groups.values(), key=lambda g: -g["examples"][0]["n"])[:1 if tier == "quick" else 6]:
         e = g["examples"][0]
         if e["n"] > 4 and g["clause"].startswith("exception escapes"):
-            small, sst = shrink(e, g["clause"], exc_class(e["exception"]), 8 if tier == "quick" else 20)
+            small, sst = shrink(e, g["clause"], exc_class(e["exception"]), 5 if tier == "quick" else 20)
             shrunk = [shrunk[0] + sst[0], shrunk[1] + sst[1]]
             if small != e["block"]:
                 g["examples"].insert(0, dict(e, block=small, n=len(gen.tokens(small)), shrunk_from=e["block"]))
@@ -495,7 +494,7 @@ def run(tier):
     faults, fst = enumerate_faults([len(pipedoc.doc_blocks(d)) for d, _ in docs])
     cplan = contract_plan(tier, seed, docs, faults, natural_bodies)
     tcases, tmeta = contract_runs(cplan)
-    tverd, tends, tst = pipetrace.run_traces(tcases, jobs=JOBS, tag="c10trace")
+    tverd, tends, tst = pipetrace.run_traces(tcases, jobs=2 if tier == "quick" else JOBS, tag="c10trace")
     t_tr = time.time() - t0
     taken = set()
     for cid, e in tends.items():
